@@ -9,6 +9,7 @@ Decided structural clauses (nothing else is claimed):
  D3 the hand-over of the caches between iterations replaces old by new (nothing of an older step survives)
  D4 the hat implementations behind the small-grid and large-grid paths count the centre of a hat exactly once (sa/hats.py)
  D5 per-dimension caches (data bins) are distinct objects per dimension (no list multiplication of a mutable)
+ D6 the per-dimension index ranges of the samples inside a support (data bins) contain both of their ends when they are sliced
 Not decided: equality of results with reuse on/off over histories, small-grid vs large-grid equality as values."""
 import ast
 
@@ -266,6 +267,8 @@ def run(prog, ctx):
                     ctx.ok("C17.D5", R.key_of(f, "distinct-per-dimension:%s" % s_.attr), f.loc(s_.stmt),
                            "one fresh object per dimension (comprehension)")
     ctx.floor("C17.D5", n5, 1, "per-dimension cache containers of the density estimation")
+    # ------------------------------------------------------------------ D6
+    check_index_ranges_cover_their_ends(prog, ctx)
 
     # ------------------------------------------------------------------ D3
     # hand-over between iterations
@@ -313,3 +316,87 @@ def run(prog, ctx):
         ctx.check(not problems, "C17.D3", R.key_of(fi, "hand-over"), fi.loc(),
                   "old_B/old_grid_coord are emptied, refilled from all of new_B/new_grid_coord under the same keys, and the new ones restart empty",
                   "hand-over of cached right-hand sides between iterations: " + "; ".join(problems))
+
+
+# ---------------------------------------------------------------------------------------------------------------- D6
+def check_index_ranges_cover_their_ends(prog, ctx):
+    """find_data_in_domain scans the sorted samples of a dimension for the first position `lower` and the last position `upper` inside
+    the support, stores the pair widened by a margin and clamped,  [max(lower - c3, 0), min(upper + c1, len(S) - c2)],  in the data
+    bins and later slices  S[lo + k0 : hi + k].  Every sample inside the support must be in the slice, i.e. for all
+    0 <= lower, upper <= len(S) - 1:   lo + k0 <= lower   and   hi + k >= upper + 1.   With the clamps this is
+        k0 <= 0,  k0 <= c3,  c1 + k >= 1,  k >= c2
+    (an end clamped to the last valid POSITION, c2 = 1, needs k = 1; clamped to the length, c2 = 0, k = 0).
+    Decided from the constants; nothing is claimed when the range is not built in this max/min form."""
+    from ..absint import poly_of_term
+    fi = prog.func(DE + ".find_data_in_domain")
+    ctx.touch(fi)
+    tm = Terms(fi.node, max_depth=0)
+    pairs = []
+    for st in walk_local(fi.node):
+        if isinstance(st, ast.Assign) and isinstance(st.value, (ast.List, ast.Tuple)) and len(st.value.elts) == 2:
+            lo_t, hi_t = tm.term(st.value.elts[0]), tm.term(st.value.elts[1])
+            if lo_t[0] == "call" and lo_t[1] == ("n", "max") and hi_t[0] == "call" and hi_t[1] == ("n", "min") and len(lo_t[2]) == 2 and len(hi_t[2]) == 2:
+                pairs.append((st, lo_t, hi_t))
+    if not pairs:
+        ctx.note("C17.D6", R.key_of(fi, "ranges-cover-their-ends"), fi.loc(),
+                 "the index range is not built as [max(lower - c, 0), min(upper + c, len - c)]: nothing decided")
+        return 0
+    n = 0
+    for (st, lo_t, hi_t) in pairs:
+        target = tm.term(st.targets[0])
+        try:
+            # lower end
+            zero = [a for a in lo_t[2] if a in (("c", "0"),)]
+            other = [a for a in lo_t[2] if a not in zero]
+            pl = poly_of_term(other[0])
+            atoms_l = [k for k in pl.terms if k != ()]
+            c3 = -pl.const_value()
+            lens = [a for a in hi_t[2] if any(x[0] == "call" and x[1] == ("n", "len") for x in subterms(a))]
+            ups = [a for a in hi_t[2] if a not in lens]
+            pu, pL = poly_of_term(ups[0]), poly_of_term(lens[0])
+            c1, c2 = pu.const_value(), -pL.const_value()
+            simple = bool(zero) and len(atoms_l) == 1 and len([k for k in pu.terms if k != ()]) == 1 and len([k for k in pL.terms if k != ()]) == 1
+        except Exception:                                        # noqa: BLE001
+            simple = False
+        if not simple:
+            ctx.note("C17.D6", R.key_of(fi, "ranges-cover-their-ends"), fi.loc(st), "range `%s` not in the analysed form: nothing decided" % src(st)[:80])
+            continue
+        # the slices over the stored pair (directly, or through the bins the pair is stored in)
+        carriers = {target}
+        for st2 in walk_local(fi.node):
+            if isinstance(st2, ast.Assign) and tm.term(st2.value) in carriers:
+                carriers.add(tm.term(st2.targets[0]))
+        slices = []
+        for sub in [x for x in walk_local(fi.node) if isinstance(x, ast.Subscript) and isinstance(x.slice, ast.Slice) and x.slice.lower is not None and x.slice.upper is not None]:
+            lo_s, hi_s = tm.term(sub.slice.lower), tm.term(sub.slice.upper)
+
+            def offset(t, pos):
+                # t == carrier[pos] + k  ->  k ; the dimension index of the carrier is abstracted (data_ranges[d] / data_ranges[0])
+                p = poly_of_term(t)
+                atoms = [k_ for k_ in p.terms if k_ != ()]
+                if len(atoms) != 1 or len(atoms[0]) != 1 or p.terms[atoms[0]] != 1:
+                    return None
+                a = atoms[0][0][0] if isinstance(atoms[0][0], tuple) and len(atoms[0][0]) == 2 and isinstance(atoms[0][0][1], int) else atoms[0][0]
+                if not (isinstance(a, tuple) and a[0] == "s" and a[2] == ("c", str(pos))):
+                    return None
+                base = a[1]
+                if base in carriers or (base[0] == "s" and (("s", base[1], ("n", "d")) in carriers or any(c_[0] == "s" and c_[1] == base[1] for c_ in carriers))):
+                    return p.const_value()
+                return None
+            try:
+                k0, k = offset(lo_s, 0), offset(hi_s, 1)
+            except Exception:                                    # noqa: BLE001
+                k0 = k = None
+            if k0 is not None and k is not None:
+                slices.append((sub, k0, k))
+        for (sub, k0, k) in slices:
+            n += 1
+            ok = k0 <= 0 and k0 <= c3 and c1 + k >= 1 and k >= c2
+            ctx.check(ok, "C17.D6", R.key_of(fi, "ranges-cover-their-ends#%d" % n), fi.loc(sub),
+                      "slice [lo%+d : hi%+d] over [max(lower - %s, 0), min(upper + %s, len - %s)] contains every position from lower to upper" % (k0, k, c3, c1, c2),
+                      "`%s` does not contain every sample inside the support: the stored upper end is min(upper + %s, len - %s) and the slice ends at "
+                      "hi%+d, so for upper = len - 1 the sample with the largest coordinate is cut off (need k >= %s and %s + k >= 1)"
+                      % (src(sub)[:70], c1, c2, k, c2, c1))
+    if n == 0:
+        ctx.note("C17.D6", R.key_of(fi, "ranges-cover-their-ends"), fi.loc(), "no slice over the stored range recognised: nothing decided")
+    return n
